@@ -11,13 +11,13 @@ import (
 
 	sdk "github.com/cosmos/cosmos-sdk/types"
 
-	baskettypes "github.com/regen-network/regen-ledger/x/ecocredit/v3/basket/types/v1"
-	markettypes "github.com/regen-network/regen-ledger/x/ecocredit/v3/marketplace/types/v1"
-	basetypes "github.com/regen-network/regen-ledger/x/ecocredit/v3/base/types/v1"
 	basketapi "github.com/regen-network/regen-ledger/api/v2/regen/ecocredit/basket/v1"
 	marketapi "github.com/regen-network/regen-ledger/api/v2/regen/ecocredit/marketplace/v1"
 	api "github.com/regen-network/regen-ledger/api/v2/regen/ecocredit/v1"
 	"github.com/regen-network/regen-ledger/x/ecocredit/v3/base"
+	basetypes "github.com/regen-network/regen-ledger/x/ecocredit/v3/base/types/v1"
+	baskettypes "github.com/regen-network/regen-ledger/x/ecocredit/v3/basket/types/v1"
+	markettypes "github.com/regen-network/regen-ledger/x/ecocredit/v3/marketplace/types/v1"
 	zz "github.com/regen-network/regen-ledger/x/ecocredit/v3/zzverif"
 )
 
@@ -173,9 +173,9 @@ func ClassFeeOK(r *api.ClassFee) bool {
 	})
 }
 
-func ClassSequenceOK(r *api.ClassSequence) bool   { return r.NextSequence >= 1 }
+func ClassSequenceOK(r *api.ClassSequence) bool     { return r.NextSequence >= 1 }
 func ProjectSequenceOK(r *api.ProjectSequence) bool { return r.NextSequence >= 1 }
-func BatchSequenceOK(r *api.BatchSequence) bool   { return r.NextSequence >= 1 }
+func BatchSequenceOK(r *api.BatchSequence) bool     { return r.NextSequence >= 1 }
 
 func BasketOK(r *basketapi.Basket) bool {
 	v := zz.Merged(func() bool {
@@ -480,6 +480,14 @@ func callRecovering(call func(ctx context.Context) error) (err error, panicked b
 // RunStep: arbitrary pre-state satisfying R, arbitrary request accepted by ValidateBasic,
 // one handler execution, rollback on error, then the per-step obligations of C01..C04
 // (and whatever the handler-specific hook adds).
+// Light restricts RunStep to the obligations that talk about credit amounts (C01 conservation,
+// C04 monotonicity, C05 basket backing, C06 escrow and the handler's own hook: C03/C07/C11/...):
+// the issuance (C02), validator (C09), reference (C14) and sealed-batch (C08) obligations of
+// the same handler are decided by the unrestricted harness of that handler at the smaller
+// bound. It is what makes the two-row variants (Take over two basket balances, Put of two
+// credits, BuyDirect of two orders) cheap enough for the quick tier.
+var Light bool
+
 func RunStep(authority []byte, req sdk.Msg, call func(ctx context.Context) error, issued func(b uint64) zz.Q, hook func(s *Step)) {
 	zz.NondetInto("req", req)
 	zz.Assume(req.ValidateBasic() == nil)
@@ -495,7 +503,9 @@ func RunStep(authority []byte, req sdk.Msg, call func(ctx context.Context) error
 	if issued != nil && s.Err == nil {
 		iss = issued(s.Sk.Batch)
 	}
-	CheckC02(s.Sk.Batch, iss)
+	if !Light {
+		CheckC02(s.Sk.Batch, iss)
+	}
 	CheckC04(s.Sk.Acct, s.Sk.Batch)
 	if hook != nil {
 		hook(s)
@@ -504,9 +514,11 @@ func RunStep(authority []byte, req sdk.Msg, call func(ctx context.Context) error
 		CheckC05(s.Sk.Basket)
 	}
 	CheckC06(s.Sk.Acct, s.Sk.Batch)
-	CheckC09()
-	CheckRefs()
-	CheckSealed(s.Sk.Batch)
+	if !Light {
+		CheckC09()
+		CheckRefs()
+		CheckSealed(s.Sk.Batch)
+	}
 	if s.Err == nil {
 		zz.Reach("handler succeeds")
 	} else if s.Panicked {
